@@ -145,14 +145,8 @@ Section Concrete.
   (* ---- ancestors are the parent chain, depth is its length (no filter is consulted) ---- *)
   Theorem c_ancestors_abs D F n : In n (ids t) -> c_iterate_ancestors c D F n = Ok (filter F (a_ancestors t n)).
   Proof. intros Hn. unfold c_iterate_ancestors, h_iterate_ancestors. walk ancestors_spec. Qed.
-  Theorem c_depth_abs D n : In n (ids t) -> is_ktag (ckind_of c) = true -> c_depth c D n = Ok (a_depth t n).
-  Proof.
-    intros Hn Hroot. unfold c_depth, h_depth. walk depth_spec.
-    destruct (N.eq_dec n (cid c)) as [->|Hne].
-    - left. unfold h_is_tag. rewrite root_obj. exact Hroot.
-    - right. right. rewrite <- (abs_iid inh c) in Hne. destruct (has_parent t n Hn Hne) as [s [Hs Hk]].
-      rewrite (a_parent_of_kid t Tnd s n Hs Hk). discriminate.
-  Qed.
+  Theorem c_depth_abs D n : In n (ids t) -> c_depth c D n = Ok (a_depth t n).
+  Proof. intros Hn. unfold c_depth, h_depth. walk depth_spec. Qed.
 
   (* ---- kinds and text content ---- *)
   Lemma abs_not_text inh' e : is_text_tree (abs_el inh' e) = false.
@@ -268,10 +262,6 @@ Proof.
   vm_compute. discriminate.
 Qed.
 
-(* depth of a parentless comment / processing instruction: `_ChildLessNode.depth` is `parent.depth + 1` with parent None *)
-Lemma depth_parentless_refuted : exists c n,
-  el_ok c = true /\ nodupb (cel_ids c) = true /\ In n (ids (abs_el [] c)) /\ a_depth (abs_el [] c) n = 0%nat /\
-  c_depth c ftrue n = Crash AttributeError.
-Proof.
-  exists (CEl 0%N (KComment []) None no_chain []), 0%N. repeat split; try reflexivity. left. reflexivity.
-Qed.
+(* regression (finding C05-depth-parentless-childless, repaired in 50b8568): a parentless comment has depth 0 *)
+Lemma depth_parentless_comment : c_depth (CEl 0%N (KComment []) None no_chain []) ftrue 0%N = Ok 0%nat.
+Proof. reflexivity. Qed.
